@@ -1,7 +1,7 @@
 ----------------------------- MODULE EventGraph -----------------------------
 (* G-mode product of EventContract with the transition graph of the real     *)
 (* EventManager + CSRBank netlists (harness/graphloop.py).                   *)
-EXTENDS EventContract, Json, IOUtils
+EXTENDS EventContract, Json, IOUtils, GraphLookup
 
 G == JsonDeserialize(IOEnv.GRAPH)
 NDuts == Len(G.duts)
@@ -13,11 +13,10 @@ Init == /\ d \in 1..NDuts /\ s = 0 /\ CInit
 
 Step(iv) ==
   /\ s >= 0
-  /\ LET k == ToString(iv) IN
-       IF k \in DOMAIN G.duts[d].succ[s + 1]
-       THEN LET e == G.duts[d].succ[s + 1][k] IN
-            /\ s' = e.d /\ d' = d
-            /\ CStep(C, iv, e.o)
+  /\ LET e == GLookup(G.duts[d].succ[s + 1], iv) IN
+       IF e # <<>>
+       THEN /\ s' = e[3] /\ d' = d
+            /\ CStep(C, iv, e[2])
        ELSE /\ PrintT(<<"NEED", d, s, iv>>)
             /\ s' = -1 /\ d' = d /\ UNCHANGED cvars
 
